@@ -74,6 +74,8 @@ type Chan struct {
 	closed bool
 	id     int
 	timer  *Obj // time.Timer / time.After channel: str "pending" | "fired" | "stopped" in timer.Kind2
+	cp     int     // buffer capacity (make(chan T, n)); 0 = unbuffered
+	queue  []Value // buffered elements
 }
 
 // Obj is an opaque environment object (net.Conn stub, listener, bufio, ctx, error, ...).
